@@ -3,7 +3,7 @@
 # Applies a seeded change to a scratch worktree of /repo's HEAD (never to /repo itself, so background runs are not
 # disturbed), runs the checks against it (quick, no evidence) and removes the change again.
 patch=$1; shift
-M=/tmp/mutrepo
+M=${MUTREPO:-/tmp/mutrepo}
 head=$(git -C /repo rev-parse HEAD)
 if [ ! -d $M ]; then git -C /repo worktree add -q --detach $M $head || exit 3; fi
 git -C $M checkout -q --detach $head && git -C $M checkout -q -- . && git -C $M clean -fdq
